@@ -33,6 +33,7 @@ type State struct {
 	compEpoch map[string]int
 	heapDirty bool // some unknown call havocked the whole heap
 	pureInst  map[string]bool
+	entries   map[int]*State // state at entry of each enclosing loop (by loop ordinal), for $entry(e)
 	// alias links of inner maps: local map variable -> the outer map element it denotes
 	aliasLinks map[types.Object]*aliasLink
 }
@@ -59,6 +60,12 @@ func (st *State) clone() *State {
 	for k, v := range st.pureInst {
 		n.pureInst[k] = v
 	}
+	if len(st.entries) > 0 {
+		n.entries = make(map[int]*State, len(st.entries))
+		for k, v := range st.entries {
+			n.entries[k] = v
+		}
+	}
 	if len(st.aliasLinks) > 0 {
 		n.aliasLinks = make(map[types.Object]*aliasLink, len(st.aliasLinks))
 		for k, v := range st.aliasLinks {
@@ -84,6 +91,13 @@ func (st *State) clone() *State {
 		n.defers = append(n.defers, append([]deferred(nil), f...))
 	}
 	return n
+}
+
+func (st *State) setEntry(ord int, e *State) {
+	if st.entries == nil {
+		st.entries = map[int]*State{}
+	}
+	st.entries[ord] = e
 }
 
 func (st *State) assume(t string) {
@@ -163,6 +177,7 @@ type Exec struct {
 	steps         int
 	maxSteps      int
 	assertHit     map[int]bool
+	ghostUpdHit   map[int]bool
 	skipHit       map[string]bool
 	loopHit       map[int]bool
 	cloHit        map[int]bool
@@ -190,7 +205,7 @@ func newExec(ld *Loader, cs *Contracts, pkg *packages.Package) *Exec {
 		declared: map[string]bool{}, reveal: map[string]bool{}, specUsesStr: map[string]bool{}, specUsesQuant: map[string]bool{},
 		loopOrd: map[ast.Node]int{}, cloOrd: map[*ast.FuncLit]int{}, boxed: map[types.Object]bool{},
 		heapComps: map[string]*Sort{}, structSorts: map[string]*Sort{}, typeTags: map[string]int{}, maxPaths: 20000, assumptions: map[string]bool{},
-		maxSteps: 400000, assertHit: map[int]bool{}, skipHit: map[string]bool{}, loopHit: map[int]bool{}, cloHit: map[int]bool{},
+		maxSteps: 400000, assertHit: map[int]bool{}, ghostUpdHit: map[int]bool{}, skipHit: map[string]bool{}, loopHit: map[int]bool{}, cloHit: map[int]bool{},
 		freshSliceVars: map[*types.Var]bool{}, escaped: map[*ast.FuncLit]bool{}, uncontracted: map[string]bool{}, pureAxiomDone: map[string]bool{},
 		closureOfVar: map[*types.Var]*ast.FuncLit{}, allLits: map[*ast.FuncLit]bool{}, usedAxioms: map[string]bool{}, intrinsics: map[string]bool{}, cloVerified: map[*ast.FuncLit]bool{}, reassigned: map[types.Object]bool{}, freshPtrVars: map[*types.Var]bool{}, freshStructVars: map[*types.Var]bool{}, aliasMapVars: map[*types.Var]bool{},
 	}
@@ -369,7 +384,12 @@ func (ex *Exec) heapHavocAll(st *State) {
 	st.heapEpoch = ex.nfresh
 	st.heap = map[string]string{}
 	st.heapDirty = true
-	// allocation counter may have advanced
+	ex.advanceAlloc(st)
+}
+
+// advanceAlloc: code that is not followed statement by statement (a callee, earlier loop iterations)
+// may have allocated objects: the allocation counter is some value >= the known one.
+func (ex *Exec) advanceAlloc(st *State) {
 	if st.alloc != "" {
 		na := ex.fresh("alloc", SInt)
 		st.assume(app(">=", na, st.alloc))
